@@ -39,8 +39,11 @@ long xv_seq;                               /* ticks in every stub */
 /* the transport operation proper: which, when, on which socket, with which arguments, what it returned, errno it left */
 long xv_op_calls; int xv_op_kind; long xv_op_seq; const struct xcm_socket *xv_op_s; const void *xv_op_a1; size_t xv_op_a2;
 int xv_op_rv; int xv_op_errno;
-/* update(): all calls / the calls on the tracked socket xv_t */
-long xv_upd_calls; long xv_upd_seq; const struct xcm_socket *xv_upd_s;
+/* update(): all calls / the calls on the tracked socket xv_t.  (No "socket updated last" pointer: a pointer-typed ghost that
+ * a replaced contract equates with its argument makes every path on which that contract runs TWICE with different
+ * arguments infeasible in CBMC 6.11 -- silently; only the canaries of job accept noticed.  Pointer records below are
+ * written at most once per path.) */
+long xv_upd_calls; long xv_upd_seq;
 const struct xcm_socket *xv_t; long xv_updt_calls; long xv_updt_seq;
 /* the transport's own enable_ctl operation */
 long xv_en_calls; long xv_en_seq; const struct xcm_socket *xv_en_s;
@@ -55,11 +58,11 @@ long xv_ctl_live;                          /* control interfaces created and not
 long xv_id_calls; int64_t xv_id_ret;
 
 #define XV_C_OK(c, lim) ((c) >= 0 && (c) < (lim))
-#define XV_TP_RANGE(lim) (XV_C_OK(xv_seq, lim) && XV_C_OK(xv_op_calls, lim) && XV_C_OK(xv_upd_calls, lim) && XV_C_OK(xv_updt_calls, lim) && \
+#define XV_TP_RANGE(lim, lo) (XV_C_OK(xv_seq, lim) && XV_C_OK(xv_op_calls, lim) && XV_C_OK(xv_upd_calls, lim) && XV_C_OK(xv_updt_calls, lim) && \
                           XV_C_OK(xv_en_calls, lim) && XV_C_OK(xv_ps_calls, lim) && XV_C_OK(xv_ctlp_calls, lim) && XV_C_OK(xv_ctlc_calls, lim) && \
-                          XV_C_OK(xv_ctld_calls, lim) && XV_C_OK(xv_id_calls, lim) && xv_ctl_live >= 1 && xv_ctl_live < (lim))
-#define XV_TP_RANGE_IN XV_TP_RANGE(XV_CALLS_MAX)     /* required by the functions under proof */
-#define XV_TP_RANGE_STUB XV_TP_RANGE(XV_CALLS_LIM)   /* required by the stubs */
+                          XV_C_OK(xv_ctld_calls, lim) && XV_C_OK(xv_id_calls, lim) && xv_ctl_live >= (lo) && xv_ctl_live < (lim))
+#define XV_TP_RANGE_IN XV_TP_RANGE(XV_CALLS_MAX, 1)     /* required by the functions under proof */
+#define XV_TP_RANGE_STUB XV_TP_RANGE(XV_CALLS_LIM, 0)   /* required by the stubs */
 
 #define XV_TICK (xv_seq == __CPROVER_old(xv_seq) + 1)
 #define XV_INC(c) ((c) == __CPROVER_old(c) + 1)
@@ -120,11 +123,11 @@ __CPROVER_assigns(OP_ASSIGNS)
 __CPROVER_ensures(OP_RECORD(XV_OP_CLEANUP, s, NULL, 0))
 ;
 /* update: errno is NOT in the frame (see the head of this file) */
-#define UPD_ASSIGNS xv_seq, xv_upd_calls, xv_upd_seq, xv_upd_s, xv_updt_calls, xv_updt_seq
+#define UPD_ASSIGNS xv_seq, xv_upd_calls, xv_upd_seq, xv_updt_calls, xv_updt_seq
 void xv_update_stub(struct xcm_socket *s)
 __CPROVER_requires(XV_TP_RANGE_STUB)
 __CPROVER_assigns(UPD_ASSIGNS)
-__CPROVER_ensures(XV_TICK && XV_INC(xv_upd_calls) && xv_upd_seq == xv_seq && xv_upd_s == s)
+__CPROVER_ensures(XV_TICK && XV_INC(xv_upd_calls) && xv_upd_seq == xv_seq)
 __CPROVER_ensures(s == xv_t ? (XV_INC(xv_updt_calls) && xv_updt_seq == xv_seq) : (XV_SAME(xv_updt_calls) && XV_SAME(xv_updt_seq)))
 ;
 /* a transport's own enable_ctl (utls): may (re)set s->ctl, to the control interface it created or NULL */
@@ -198,6 +201,9 @@ __CPROVER_ensures(XV_INC(xv_id_calls) && __CPROVER_return_value == xv_id_ret)
 #define NO_CTLD (XV_SAME(xv_ctld_calls) && XV_SAME(xv_ctl_live))
 #define NO_UPD (XV_SAME(xv_upd_calls) && XV_SAME(xv_updt_calls))
 #define NO_OP XV_SAME(xv_op_calls)
+/* the ONE update() call made (it is the last call, tick xv_seq) was made on socket s: stated for the tracked socket xv_t,
+ * i.e. for every socket -- it counts one more update if it is s, none otherwise */
+#define UPDT_ONLY(s) (xv_t == (s) ? (XV_INC(xv_updt_calls) && xv_updt_seq == xv_seq) : XV_SAME(xv_updt_calls))
 
 /* ---- do_ctl: poll the control interface now, if there is one -------------------------------------------------- */
 static void do_ctl(struct xcm_socket *s)
@@ -244,8 +250,7 @@ void xcm_tp_socket_update(struct xcm_socket *s)
 __CPROVER_requires(SOCK_REQ(s) && XV_TP_RANGE_IN)
 __CPROVER_assigns(UPD_ASSIGNS)
 /* PO[C04] xcm_tp_socket_update.reaches_the_transport: exactly one update() of this socket's transport, on this socket */
-__CPROVER_ensures(xv_seq == __CPROVER_old(xv_seq) + 1 && XV_INC(xv_upd_calls) && xv_upd_s == s && xv_upd_seq == xv_seq)
-__CPROVER_ensures(xv_t == s ? XV_INC(xv_updt_calls) : XV_SAME(xv_updt_calls))
+__CPROVER_ensures(xv_seq == __CPROVER_old(xv_seq) + 1 && XV_INC(xv_upd_calls) && xv_upd_seq == xv_seq && UPDT_ONLY(s))
 __CPROVER_ensures(XV_SAME(xv_errno) && HDR_SAME(s))
 ;
 int xcm_tp_socket_init(struct xcm_socket *s, struct xcm_socket *parent)
@@ -294,7 +299,7 @@ __CPROVER_ensures(XV_INC(xv_op_calls) && xv_op_kind == (KIND) && xv_op_s == (s) 
 __CPROVER_ensures(__CPROVER_return_value != 0 ==> (xv_errno == xv_op_errno && xv_seq == xv_op_seq && NO_UPD && NO_CTLC && XV_SAME((s)->ctl)))
 #define CONNECT_SUCCESS_UPDATE(s) \
 __CPROVER_ensures(__CPROVER_return_value == 0 ==> (xv_seq == xv_op_seq + AUTO_EN_N(s) + AUTO_UPD_N(s) && \
-                  ((s)->auto_update ? (XV_INC(xv_upd_calls) && xv_upd_s == (s) && xv_upd_seq == xv_seq && (xv_t == (s) ? (XV_INC(xv_updt_calls) && xv_updt_seq == xv_seq) : XV_SAME(xv_updt_calls))) : NO_UPD)))
+                  ((s)->auto_update ? (XV_INC(xv_upd_calls) && xv_upd_seq == xv_seq && UPDT_ONLY(s)) : NO_UPD)))
 #define CONNECT_SUCCESS_ERRNO(s) \
 __CPROVER_ensures((__CPROVER_return_value == 0 && !(s)->auto_enable_ctl) ==> xv_errno == xv_op_errno)
 #define CONNECT_CTL_POLL(s) \
@@ -355,7 +360,7 @@ __CPROVER_ensures(XV_INC(xv_op_calls) && xv_op_kind == XV_OP_ACCEPT && xv_op_s =
 /* PO[C14] xcm_tp_socket_accept.failure_errno_is_ops: neither the control interface nor update changes errno of a failed accept (EAGAIN stays EAGAIN) */
 __CPROVER_ensures((!ACC_OK || !conn_s->auto_enable_ctl) ==> xv_errno == xv_op_errno)
 /* PO[C04] xcm_tp_socket_accept.server_update_is_last_call: success or failure, auto_update or not */
-__CPROVER_ensures(xv_upd_s == server_s && xv_upd_seq == xv_seq && xv_seq == xv_op_seq + ACC_EN_N + ACC_UPD_N + CTL_N + 1 && \
+__CPROVER_ensures(xv_upd_seq == xv_seq && xv_seq == xv_op_seq + ACC_EN_N + ACC_UPD_N + CTL_N + 1 && \
                   xv_upd_calls == __CPROVER_old(xv_upd_calls) + ACC_UPD_N + 1)
 /* PO[C04] xcm_tp_socket_accept.per_socket_updates: for EVERY socket xv_t: the server once, after everything; the new connection once iff accepted and auto_update, after its ctl was enabled; no other socket */
 __CPROVER_ensures(xv_t == server_s ? (XV_INC(xv_updt_calls) && xv_updt_seq == xv_seq) : \
@@ -380,7 +385,7 @@ __CPROVER_ensures(XV_INC(xv_op_calls) && xv_op_kind == (KIND) && xv_op_s == (s) 
 __CPROVER_ensures(xv_errno == xv_op_errno)
 #define IO_UPDATE(s) \
 __CPROVER_ensures(xv_seq == xv_op_seq + CTL_N + AUTO_UPD_N(s) && \
-                  ((s)->auto_update ? (XV_INC(xv_upd_calls) && xv_upd_s == (s) && xv_upd_seq == xv_seq && (xv_t == (s) ? (XV_INC(xv_updt_calls) && xv_updt_seq == xv_seq) : XV_SAME(xv_updt_calls))) : NO_UPD))
+                  ((s)->auto_update ? (XV_INC(xv_upd_calls) && xv_upd_seq == xv_seq && UPDT_ONLY(s)) : NO_UPD))
 #define IO_CTL(s, PERM, TEMP) \
 __CPROVER_ensures(CTL_RATE(s, PERM, TEMP) && SKIPPED_OK(s) && (CTL_N == 0 || (CTL_N == 1 && xv_ctlp_seq == xv_op_seq + 1)))
 #define IO_HDR(s) \
@@ -471,11 +476,15 @@ __CPROVER_assigns(xv_seq, xv_ps_calls, xv_ps_arg, xv_ps_ret, xv_id_calls, xv_id_
 __CPROVER_ensures(__CPROVER_is_fresh(__CPROVER_return_value, sizeof(struct xcm_socket)) && __CPROVER_POINTER_OFFSET(__CPROVER_return_value) == 0 && \
                   __CPROVER_OBJECT_SIZE(__CPROVER_return_value) == sizeof(struct xcm_socket) + xv_ps_ret && \
                   XV_INC(xv_ps_calls) && xv_ps_arg == (int)type && xv_seq == __CPROVER_old(xv_seq) + 1)
-/* PO[C08,C14] xcm_tp_socket_create.header_initialised: arguments stored, one fresh id, no condition, NO control interface, poll counter 0 */
-__CPROVER_ensures(__CPROVER_return_value->proto == proto && __CPROVER_return_value->type == type && __CPROVER_return_value->xpoll == xpoll && \
-                  __CPROVER_return_value->auto_enable_ctl == auto_enable_ctl && __CPROVER_return_value->auto_update == auto_update && \
-                  __CPROVER_return_value->is_blocking == is_blocking && XV_INC(xv_id_calls) && __CPROVER_return_value->sock_id == xv_id_ret && \
-                  __CPROVER_return_value->condition == 0 && __CPROVER_return_value->ctl == NULL && __CPROVER_return_value->skipped_ctl_calls == 0)
+/* PO[C08] xcm_tp_socket_create.arguments_stored */
+__CPROVER_ensures(__CPROVER_return_value->proto == proto && __CPROVER_return_value->type == type && __CPROVER_return_value->xpoll == xpoll)
+/* PO[C08] xcm_tp_socket_create.flags_stored */
+__CPROVER_ensures(!__CPROVER_return_value->auto_enable_ctl == !auto_enable_ctl && !__CPROVER_return_value->auto_update == !auto_update && \
+                  !__CPROVER_return_value->is_blocking == !is_blocking)
+/* PO[C08] xcm_tp_socket_create.one_fresh_id */
+__CPROVER_ensures(XV_INC(xv_id_calls) && __CPROVER_return_value->sock_id == xv_id_ret)
+/* PO[C08,C14] xcm_tp_socket_create.no_condition_no_ctl_counter_zero: in particular NO control interface yet (destroy without close leaks none) */
+__CPROVER_ensures(__CPROVER_return_value->condition == 0 && __CPROVER_return_value->ctl == NULL && __CPROVER_return_value->skipped_ctl_calls == 0)
 /* PO[C08] xcm_tp_socket_create.private_area_zeroed: every byte (arbitrary index xv_j) of the transport's private area is 0 (the init ops rely on it) */
 __CPROVER_ensures((size_t)xv_j < xv_ps_ret ==> XV_U8P(__CPROVER_return_value)[sizeof(struct xcm_socket) + (size_t)xv_j] == 0)
 __CPROVER_ensures(XV_SAME(xv_errno))
